@@ -767,6 +767,22 @@ CORPUS_FULL = [
      'corpus\n1 1 -1.0 -1 imp:n=1\n2 1 -2.50 -1 imp:n=1 trcl=(5 0 0)\n'
      '3 3 7.80-1 -1 imp:n=1 trcl=(0 5 0)\n'
      '4 0 #1 #2 #3 -9 imp:n=1\n5 0 9 imp:n=0\n' + _FTAIL),
+    ('importance overridden with another grouping of the particles: IMP:N,P '
+     'over IMP:N + IMP:P and IMP:P,N over IMP:N,P (seeded C15_E)',
+     'corpus\n1 1 -1.0 -1 imp:n=1 imp:p=1\n2 like 1 but imp:n,p=0 trcl=(5 0 0)\n'
+     '3 2 -2.0 -2 imp:n,p=1\n6 like 3 but imp:p,n=0 trcl=(5 0 0)\n'
+     '7 like 3 but imp:p=0 trcl=(-5 0 0)\n'
+     '4 0 #1 #2 #3 #6 #7 -9 imp:n=1\n5 0 9 imp:n=0\n' + _FTAIL,
+     'corpus\n1 1 -1.0 -1 imp:n=1 imp:p=1\n2 1 -1.0 -1 imp:n=0 imp:p=0 trcl=(5 0 0)\n'
+     '3 2 -2.0 -2 imp:n,p=1\n6 2 -2.0 -2 imp:n=0 imp:p=0 trcl=(5 0 0)\n'
+     '7 2 -2.0 -2 imp:n=1 imp:p=0 trcl=(-5 0 0)\n'
+     '4 0 #1 #2 #3 #6 #7 -9 imp:n=1\n5 0 9 imp:n=0\n' + _FTAIL),
+    ('the same cell numbers as the other corpus decks with another geometry '
+     '(seeded C15_F: nothing may survive from one conversion to the next)',
+     'corpus\n1 1 -1.0 -2 imp:n=1\n2 like 1 but trcl=(5 0 0)\n3 like 2 but trcl=(-5 0 0) mat=2 rho=-2.0\n'
+     '4 0 #1 #2 #3 -9 imp:n=1\n5 0 9 imp:n=0\n' + _FTAIL,
+     'corpus\n1 1 -1.0 -2 imp:n=1\n2 1 -1.0 -2 imp:n=1 trcl=(5 0 0)\n3 2 -2.0 -2 imp:n=1 trcl=(-5 0 0)\n'
+     '4 0 #1 #2 #3 -9 imp:n=1\n5 0 9 imp:n=0\n' + _FTAIL),
     ('the same keyword overridden at two levels of a chain (seeded C15_C)',
      'corpus\n1 1 -1.0 -1 imp:n=1 u=0\n2 like 1 but mat=2 rho=-2.0 trcl=(5 0 0) imp:n=2\n'
      '3 like 2 but mat=3 rho=-3.0 trcl=(0 5 0) imp:n=4\n'
